@@ -167,6 +167,9 @@ static ogg_int64_t _get_prev_page(OggVorbis_File *vf,ogg_int64_t begin,ogg_page 
         offset=ret;
       }
     }
+    /* searched from the very beginning and found nothing: give up
+       rather than loop forever (cf. _get_prev_page_serial) */
+    if(!begin&&offset<0)return OV_EBADLINK;
   }
 
   /* In a fully compliant, non-multiplexed stream, we'll still be
@@ -267,7 +270,7 @@ static ogg_int64_t _get_prev_page_serial(OggVorbis_File *vf, ogg_int64_t begin,
     /*We started from the beginning of the stream and found nothing.
       This should be impossible unless the contents of the stream changed out
       from under us after we read from it.*/
-    if(!begin&&vf->offset<0)return OV_EBADLINK;
+    if(!begin&&offset<0)return OV_EBADLINK;
   }
 
   /* we're not interested in the page... just the serialno and granpos. */
